@@ -48,14 +48,18 @@ def git(repo: str, *args: str, check: bool = True, date: int | None = None, opti
 # ------------------------------------------------------------------------------------------
 # building a repository from a literal history
 def write_files(root: str, files: dict) -> None:
+    """``files``: relative path -> text | None (delete) | {"symlink": target} (a symbolic link, tracked like any file)."""
     for rel, content in files.items():
         p = os.path.join(root, rel)
+        if os.path.islink(p) or (content is None and os.path.lexists(p)) or (isinstance(content, dict) and os.path.lexists(p)):
+            os.unlink(p)  # a path may change its type (link <-> regular file) between two commits
         if content is None:
-            if os.path.exists(p):
-                os.unlink(p)
             continue
         os.makedirs(os.path.dirname(p), exist_ok=True)
-        with open(p, "w") as fh:
+        if isinstance(content, dict):
+            os.symlink(content["symlink"], p)
+            continue
+        with open(p, "w", encoding="utf8") as fh:
             fh.write(content)
 
 
@@ -108,7 +112,10 @@ def tree_hash(root: str) -> tuple[str, list[str]]:
         if base == root and ".git" in dirs:
             dirs.remove(".git")
         for d in dirs:
-            entries.append(os.path.relpath(os.path.join(base, d), root) + "/")
+            dp = os.path.join(base, d)
+            entries.append(os.path.relpath(dp, root) + "/")
+            if os.path.islink(dp):  # a symbolic link to a directory: os.walk lists it here and does not follow it
+                h.update(os.path.relpath(dp, root).encode() + b"\0->" + os.readlink(dp).encode() + b"\0")
         for n in sorted(names):
             p = os.path.join(base, n)
             rel = os.path.relpath(p, root)
@@ -161,6 +168,85 @@ def snapshot_diff(before: dict, after: dict) -> dict:
             else:
                 out[k] = {"before": a, "after": b}
     return out
+
+
+# ------------------------------------------------------------------------------------------
+# what git itself stores at a commit (ground truth for the source lines of objects loaded from that commit)
+class GitTree:
+    """The tree of one commit as git stores it: modes, blobs, symbolic links followed the way POSIX path resolution
+    would follow them inside a checkout of that tree (a link leaving the tree, a loop or a dangling link resolves to None)."""
+
+    def __init__(self, repo: str, commit: str) -> None:
+        self.repo = repo
+        self.commit = commit
+        self.entries: dict[str, tuple[str, str]] = {}
+        self.dirs: set[str] = {""}
+        raw = git(repo, "ls-tree", "-r", "-z", "--full-tree", commit)
+        for rec in raw.split("\0"):
+            if not rec:
+                continue
+            meta, _, path = rec.partition("\t")
+            mode, _kind, sha = meta.split()
+            self.entries[path] = (mode, sha)
+            parts = path.split("/")
+            for i in range(1, len(parts)):
+                self.dirs.add("/".join(parts[:i]))
+        self._blobs: dict[str, str] = {}
+
+    def blob(self, sha: str) -> str:
+        if sha not in self._blobs:
+            env = dict(os.environ)
+            env.update(GIT_ENV)
+            proc = _real_subprocess.run(["git", "-C", self.repo, "cat-file", "blob", sha], env=env, capture_output=True,
+                                        check=True, stdin=_real_subprocess.DEVNULL)
+            self._blobs[sha] = proc.stdout.decode("utf8")
+        return self._blobs[sha]
+
+    def resolve(self, relpath: str) -> tuple[str | None, int]:
+        """(path of the regular file or directory that ``relpath`` designates in a checkout | None, links followed)."""
+        todo = [p for p in relpath.split("/") if p not in ("", ".")]
+        done: list[str] = []
+        hops = 0
+        while todo:
+            part = todo.pop(0)
+            if part == "..":
+                if not done:
+                    return None, hops  # leaves the tree
+                done.pop()
+                continue
+            cur = "/".join([*done, part])
+            if cur in self.entries:
+                mode, sha = self.entries[cur]
+                if mode == "120000":
+                    hops += 1
+                    if hops > 40:
+                        return None, hops
+                    target = self.blob(sha)
+                    if target.startswith("/"):
+                        return None, hops
+                    todo = [p for p in target.split("/") if p not in ("", ".")] + todo
+                    continue
+                if todo:
+                    return None, hops  # a regular file used as a directory
+                return cur, hops
+            if cur in self.dirs:
+                done.append(part)
+                continue
+            return None, hops
+        return "/".join(done), hops
+
+    def text(self, relpath: str) -> tuple[str | None, int]:
+        """(text of the file ``relpath`` designates at this commit | None, number of symbolic links followed)."""
+        final, hops = self.resolve(relpath)
+        if final is None or final not in self.entries:
+            return None, hops
+        return self.blob(self.entries[final][1]), hops
+
+
+def commit_of(repo: str, ref: str) -> str | None:
+    """The commit a ref designates in the user's repository (None: git does not know it)."""
+    out = git(repo, "rev-parse", "--verify", "-q", ref + "^{commit}", check=False, optional_locks=False).strip()
+    return out or None
 
 
 # ------------------------------------------------------------------------------------------
